@@ -26,10 +26,12 @@ ASSUMPTIONS = ["the digest covers what the statement lists; wall-clock output of
 REQUIRED = {
     "quick": {"in_process_pairs": 24, "child_processes_compared": 8, "class/correlated_fundamentals": 8,
               "class/all_builtin_event_classes": 8, "class/nontrivial_run": 16, "different_seed_pairs": 10,
-              "settings_objects_compared": 24, "near_twin_runs_before": 1, "refused_runs_before": 4},
+              "settings_objects_compared": 24, "near_twin_runs_before": 1, "refused_runs_before": 4,
+              "class/cheap_stock_run_with_sub_tick_draws_compared": 1},
     "thorough": {"in_process_pairs": 500, "child_processes_compared": 300, "class/correlated_fundamentals": 200,
                  "class/all_builtin_event_classes": 200, "class/nontrivial_run": 400, "different_seed_pairs": 200,
-                 "settings_objects_compared": 500, "near_twin_runs_before": 30, "refused_runs_before": 100},
+                 "settings_objects_compared": 500, "near_twin_runs_before": 30, "refused_runs_before": 100,
+                 "class/cheap_stock_run_with_sub_tick_draws_compared": 20},
 }
 CASE_TIMEOUT_S = 600
 SHARDS = {"quick": 16, "thorough": 16}
@@ -159,6 +161,23 @@ def gen_case(rng, tier, idx):
         cfg["EvMistake"]["target"] = names[2]
         cfg["EvLimit"]["targetMarkets"] = [names[1]]
         cfg["EvHalt"]["targetMarkets"] = [names[2]]
+    if idx % 8 == 5:
+        # a cheap stock: a price of a few ticks and FCN agents quoting with a normally distributed margin of more than a
+        # tick, so that drawn prices fall below one tick a few times per run (rarely below zero, which the agent
+        # itself refuses - such a run stops the same way in every process and is counted, not judged)
+        # (the agents are anchored on the fundamental value - weight 50 against chart 0 and noise 0.1 - so that the drawn
+        # prices are about N(3.25, 0.75): below one tick with probability 1.3e-3, below zero with probability 7e-6)
+        cheap = {"simulation": {"markets": ["Cheap"], "agents": ["FCNCheap"], "sessions": [
+            {"sessionName": 0, "iterationSteps": rng.choice([200, 260]), "withOrderPlacement": True,
+             "withOrderExecution": True, "withPrint": False, "maxNormalOrders": 5}]},
+            "Cheap": {"class": "Market", "tickSize": 1.0, "marketPrice": 3.25,
+                      "fundamentalVolatility": 0.0005, "outstandingShares": 1000},
+            "FCNCheap": {"class": "FCNAgent", "numAgents": rng.randint(20, 40), "markets": ["Cheap"], "assetVolume": 50,
+                         "cashAmount": 10000, "fundamentalWeight": 50.0, "chartWeight": 0.0,
+                         "noiseWeight": 0.1, "noiseScale": 0.001, "timeWindowSize": [20, 60],
+                         "marginType": "normal", "orderMargin": 0.75}}
+        return {"drive": "runner", "seed": rng.randrange(1 << 31), "config": cheap, "profile": "kitchen-sink",
+                "all_events": False, "corr": False, "children": False, "individual": False}
     return {"drive": "runner", "seed": rng.randrange(1 << 31), "config": cfg, "profile": "kitchen-sink",
             "all_events": all_events, "corr": corr, "children": idx % 4 == 0, "individual": individual}
 
@@ -289,7 +308,11 @@ def run_case(case, res):
             # the generated market ran into a state in which a built-in agent gives up (e.g. FCNAgent's own
             # finiteness assertion after the price collapsed): the run stops the same way in a fresh process,
             # which is all C07 can say about it; counted, and too many of them make the whole check inconclusive
-            res.count("configuration_stops_the_same_way_in_a_fresh_process(not judged further)")
+            if "Cheap" in case["config"] and isinstance(out1.error, AssertionError) and "fcn_agent.py" in (out1.tb or ""):
+                # expected now and then in the cheap-stock profile: a drawn price below zero, refused by the agent
+                res.count("cheap_stock_run_stopped_by_the_agents_own_assertion_in_every_process(not judged further)")
+            else:
+                res.count("configuration_stops_the_same_way_in_a_fresh_process(not judged further)")
         else:
             res.inconc("kitchen-sink configuration aborted: %r %s" % (out1.error, (out1.tb or "")[-500:]))
         return
@@ -306,6 +329,8 @@ def run_case(case, res):
         np.random.random()
     d2, st2, out2 = run_digest(case, settings_obj=settings)
     res.count("in_process_pairs")
+    if "Cheap" in case["config"]:
+        res.count("class/cheap_stock_run_with_sub_tick_draws_compared")
     if out2.error is not None or d1 != d2:
         _, s1p, _ = run_digest(case, settings_obj=copy.deepcopy(pristine), parts=True)
         res.violation("repro", "same-configuration-and-seed-gave-different-outcomes-in-one-process",
